@@ -317,6 +317,12 @@ def _run(ctx):
     bad = C.hygiene()
     ctx.obligation("hygiene: no Admitted/Axiom/Parameter/... in coq/", not bad, "; ".join(bad))
     translators(ctx)
+    if not ctx.quick():
+        rc, out = C.run(["coqchk", "-silent", "-o", "-Q", os.path.join(C.COQ, "theories"), "Pq", "Pq.Proofs.CompactProofs", "Pq.Proofs.CThriftMain",
+                         "Pq.Proofs.CThriftReser", "Pq.Proofs.CThriftTypedProofs"], timeout=1500, cwd=C.COQ)
+        ctx.obligation("coqchk -o on the C10 proof libraries: re-checked by the standalone checker, Axioms: <none>",
+                       rc == 0 and "* Axioms: <none>" in out, out[-1500:])
+        ctx.checker_cmds.append("coqchk -silent -o -Q coq/theories Pq Pq.Proofs.{CompactProofs,CThriftMain,CThriftReser,CThriftTypedProofs}")
     stale = [d for d in C.pyx_vs_c() if d[0] == "cencoding"]
     ctx.obligation("cencoding.pyx lines embedded in cencoding.c equal the working tree's .pyx (the compiled code is the source)",
                    not stale, "; ".join("%s:%d %r vs %r" % d for d in stale[:5]))
@@ -336,6 +342,7 @@ def _run(ctx):
         stream_api(ctx, pq, w, root, enums, structs, specs_names)
         stream_pickle(ctx, w, enums, structs, specs_names)
         stream_foreign(ctx, pq, w, root, enums, structs, specs_names)
+        stream_foreign_wide(ctx, pq, w, root, enums, structs, specs_names)
         stream_generic(ctx, pq, w)
         stream_dict_eq(ctx, pq, w)
         stream_boundary(ctx, pq, root, enums, structs)
@@ -364,42 +371,30 @@ def call(w, op, payload, timeout=120):
 
 
 def translators(ctx):
-    """the three regenerated tables of DESIGN 4.1 (fail closed -> recorded, hand model + correspondence remain)"""
-    from translators import idl2coq
+    """the three regenerated tables of DESIGN 4.1, each failing closed on its own (-> recorded as translator_fallback;
+    the hand model + correspondences + the strict IDL parse of real footers remain)"""
+    from translators import idl2coq, specs2coq, callsites2coq
     gen = ctx.gen_dir
-    try:
-        txt = idl2coq.translate(os.path.join(C.REPO, "fastparquet", "parquet.thrift"), name="table")
-        open(os.path.join(gen, "GenIdl.v"), "w").write(txt)
-        ok, out = C.coqc(os.path.join(gen, "GenIdl.v"), extra_q=[(gen, "PqGen")])
-        if not ok:
-            raise RuntimeError(out[-500:])
-        ctx.extra["translator_idl2coq"] = "ok"
-    except Exception as e:   # noqa
-        ctx.extra["translator_idl2coq"] = "translator_fallback: %s" % e
-        ctx.obligation("idl2coq translated fastparquet/parquet.thrift", False, str(e))
-        return
-    try:
-        from translators import specs2coq, callsites2coq
-        open(os.path.join(gen, "GenSpecs.v"), "w").write(specs2coq.translate(os.path.join(C.REPO, "fastparquet", "cencoding.pyx")))
-        open(os.path.join(gen, "GenCallsites.v"), "w").write(callsites2coq.translate(
-            [os.path.join(C.REPO, "fastparquet", f) for f in ("writer.py", "util.py", "api.py")]))
-        for f in ("GenSpecs.v", "GenCallsites.v"):
-            ok, out = C.coqc(os.path.join(gen, f), extra_q=[(gen, "PqGen")])
+    q = [(gen, "PqGen")]
+    fp = os.path.join(C.REPO, "fastparquet")
+    jobs = [
+        ("idl2coq", "GenIdl.v", lambda: idl2coq.translate(os.path.join(fp, "parquet.thrift"), name="table"), "GenIdlProofs.v"),
+        ("specs2coq", "GenSpecs.v", lambda: specs2coq.translate(os.path.join(fp, "cencoding.pyx")), "GenSpecsProofs.v"),
+        ("callsites2coq", "GenCallsites.v", lambda: callsites2coq.translate([os.path.join(fp, f) for f in ("writer.py", "util.py", "api.py")]),
+         "GenCallsitesProofs.v"),
+    ]
+    for name, out, fn, proofs in jobs:
+        try:
+            open(os.path.join(gen, out), "w").write(fn())
+            ok, o = C.coqc(os.path.join(gen, out), extra_q=q)
             if not ok:
-                raise RuntimeError(f + ": " + out[-500:])
-        ctx.extra["translator_specs_callsites"] = "ok"
-    except ImportError:
-        ctx.extra["translator_specs_callsites"] = "not built yet"
-    except Exception as e:   # noqa
-        ctx.extra["translator_specs_callsites"] = "translator_fallback: %s" % e
-        ctx.notes.append("specs2coq/callsites2coq failed closed (%s): the dynamic IDL check of real footers/page headers remains" % e)
-    gp = os.path.join(C.COQ, "genproofs", "GenThriftProofs.v")
-    if os.path.exists(gp) and ctx.extra.get("translator_specs_callsites") == "ok":
-        ctx.coq_file(gp, extra_q=[(gen, "PqGen")])
-    else:
-        gp = os.path.join(C.COQ, "genproofs", "GenIdlProofs.v")
-        if os.path.exists(gp):
-            ctx.coq_file(gp, extra_q=[(gen, "PqGen")])
+                raise RuntimeError(o[-400:])
+        except Exception as e:   # noqa
+            ctx.extra["translator_" + name] = "translator_fallback: %s" % str(e)[:300]
+            ctx.notes.append("%s failed closed (%s): its table obligations are not stated this run; the dynamic checks remain" % (name, str(e)[:200]))
+            continue
+        ctx.extra["translator_" + name] = "ok"
+        ctx.coq_file(os.path.join(C.COQ, "genproofs", proofs), extra_q=q)
 
 
 # ---- stream 1: built through the API -----------------------------------------------------------------
@@ -408,7 +403,7 @@ def stream_api(ctx, pq, w, root, enums, structs, specs_names):
     rng = ctx.rng
     n = 500 if ctx.quick() else 6000
     g = Gen(rng, enums, structs, specs_names, "main")
-    trees = corpus_trees()
+    trees = corpus_trees() + large_trees(rng)
     ctx.extra["corpus_cases"] = len(trees)
     for i in range(n):
         rootname = ROOTS[i % len(ROOTS)]
@@ -419,7 +414,7 @@ def stream_api(ctx, pq, w, root, enums, structs, specs_names):
     keep = []
     for tr, e in zip(trees, encs):
         if len(bytes(e[1])) > cap_lo(tr):
-            oversize_case(ctx, pq, root, tr, len(bytes(e[1])), "api")
+            oversize_case(ctx, pq, root, tr, len(bytes(e[1])), "api")       # may still fit (key-value text enlarges the buffer)
         else:
             keep.append(tr)
     trees = keep
@@ -434,6 +429,7 @@ def stream_api(ctx, pq, w, root, enums, structs, specs_names):
             cmds.append(("c_to_bytes", cap, T.pv(x)))
             cmds.append(("c_from_buffer", b))
             cmds.append(("idl_dec", tr[1], 0, 0, 1, b))
+            cmds.append(("c_typed_ok", tr[1], T.pv(x)))
     outs = iter(pq.batch(cmds))
     for tr, r in zip(trees, impl):
         st = tree_stats(tr, {})
@@ -449,7 +445,8 @@ def stream_api(ctx, pq, w, root, enums, structs, specs_names):
             ctx.fail({"component": "to_bytes", "kind": "crash-or-exception", "stream": "api"}, case, "worker: %r" % (r[:3],))
             continue
         b, x, y, eq, cap = r[1]
-        m_w, m_r, m_idl = next(outs), next(outs), next(outs)
+        m_w, m_r, m_idl, m_ty = next(outs), next(outs), next(outs), next(outs)
+        ctx.correspondence("typed_ok pinned (hypothesis of C10_typed_conformance) holds for the object from_fields built", case, m_ty, 1)
         ctx.correspondence("to_bytes(API-built) ~ impl model c_to_bytes", case, canon_out(m_w), ["ok", "#" + b.hex()])
         ctx.correspondence("to_bytes(API-built) ~ spec encoding thrift_enc of the IDL-typed tree (byte-exact conformance)", case,
                            canon_out(enc), ["ok", "#" + b.hex()])
@@ -529,6 +526,33 @@ def stream_pickle(ctx, w, enums, structs, specs_names):
                      case, "pickle.loads(pickle.dumps(x)) != x: %r" % (r[:2],))
 
 
+def large_trees(rng):
+    """deterministic shapes for "any number of row groups, columns and key-value entries ... payloads up to megabytes":
+    2000 columns x 1 row group x 500 key-values, and a 1 MB key-value payload (both inside the buffer rule of FileMetaData)"""
+    def se(name):
+        return ("struct", "SchemaElement", [(1, "type", ("enum", "Type"), ("enum", 2)), (4, "name", "FString", ("str", name))])
+
+    def cc(i):
+        cmd = ("struct", "ColumnMetaData", [
+            (1, "type", ("enum", "Type"), ("enum", 2)), (2, "encodings", ("list", ("enum", "Encoding")), ("list", ("enum", "Encoding"), [("enum", 0), ("enum", 3)])),
+            (3, "path_in_schema", ("list", "FString"), ("list", "FString", [("str", b"col%04d" % i)])), (4, "codec", ("enum", "CompressionCodec"), ("enum", 1)),
+            (5, "num_values", "FI64", ("i64", 1000 + i)), (6, "total_uncompressed_size", "FI64", ("i64", 8000)), (7, "total_compressed_size", "FI64", ("i64", 4000 + i)),
+            (9, "data_page_offset", "FI64", ("i64", 4 + 4000 * i))])
+        return ("struct", "ColumnChunk", [(2, "file_offset", "FI64", ("i64", 4 + 4000 * i)), (3, "meta_data", ("struct", "ColumnMetaData"), cmd)])
+
+    def fmd(ncols, nkv, kvlen):
+        schema = [("struct", "SchemaElement", [(4, "name", "FString", ("str", b"schema")), (5, "num_children", "FI32", ("i32", ncols))])]
+        schema += [se(b"col%04d" % i) for i in range(ncols)]
+        rg = ("struct", "RowGroup", [(1, "columns", ("list", ("struct", "ColumnChunk")), ("list", ("struct", "ColumnChunk"), [cc(i) for i in range(ncols)])),
+                                      (2, "total_byte_size", "FI64", ("i64", 8000 * ncols)), (3, "num_rows", "FI64", ("i64", 1000))])
+        kv = [("struct", "KeyValue", [(1, "key", "FString", ("str", b"key%d" % i)), (2, "value", "FString", ("str", bytes([97 + i % 26]) * kvlen))]) for i in range(nkv)]
+        return ("struct", "FileMetaData", [(1, "version", "FI32", ("i32", 1)), (2, "schema", ("list", ("struct", "SchemaElement")), ("list", ("struct", "SchemaElement"), schema)),
+                                           (3, "num_rows", "FI64", ("i64", 1000)), (4, "row_groups", ("list", ("struct", "RowGroup")), ("list", ("struct", "RowGroup"), [rg])),
+                                           (5, "key_value_metadata", ("list", ("struct", "KeyValue")), ("list", ("struct", "KeyValue"), kv)),
+                                           (6, "created_by", "FString", ("str", b"C10 large"))])
+    return [fmd(2000, 500, 10), fmd(2, 1, 1000000)]
+
+
 def corpus_trees():
     """minimised past disagreements / tricky shapes (corpus/C10/*.json), run first in the API stream"""
     import glob
@@ -579,6 +603,53 @@ def stream_foreign(ctx, pq, w, root, enums, structs, specs_names):
         if b1 != b0 or printed:
             ctx.fail({"component": "reserialise", "kind": "bytes-differ", "stream": "foreign", "root": tr[1]}, case,
                      "to_bytes(from_buffer(b)) != b for spec-encoded b (%d vs %d bytes) %s" % (len(b1), len(b0), printed))
+
+
+def stream_foreign_wide(ctx, pq, w, root, enums, structs, specs_names):
+    """everything the IDL allows below the roots (i8/i16 fields, field id 14, empty lists, crypto structs), encoded by the
+    specification writer: the reader model on type nibbles 3/4 and on ids up to 14; re-serialisation must be byte-identical
+    unless the tree touches one of the known-finding regions (classified per tree)"""
+    rng = ctx.rng
+    n = 200 if ctx.quick() else 2000
+    g = Gen(rng, enums, structs, specs_names, "wide")
+    trees = []
+    while len(trees) < n:
+        g.budget = 0
+        tr = g.struct(ROOTS[len(trees) % len(ROOTS)], 0, rng.choice([(0, 1, 2), (1, 2, 3), (0, 15)]))
+        if has(tr, lambda t: t[0] == "list" and t[1] in ("FBool",)):
+            continue                                   # read_list reads list<bool> as structs: outside the model (ColumnIndex only)
+        trees.append(tr)
+    encs = pq.batch([("thrift_enc", to_tv(tr)) for tr in trees])
+    keep = [(tr, bytes(e[1])) for tr, e in zip(trees, encs) if sym(e[0]) == "ok" and len(bytes(e[1])) <= cap_lo(tr) - 1000]
+    outs = pq.batch([("c_from_buffer", b0) for tr, b0 in keep])
+    for (tr, b0), m_r in zip(keep, outs):
+        case = {"stream": "foreign-wide", "root": tr[1], "tree": tree_json(tr)}
+        ctx.case(case, trivial=(not tr[2]))
+        r = w.call("reserialise", (tr[1], b0))
+        regions = []
+        if has(tr, lambda t: t[0] in ("i8", "i16")):
+            regions.append("i8-i16-as-i32-i64")
+        if has(tr, lambda t: t[0] == "struct" and any(f[0] >= 14 for f in t[2])):
+            regions.append("field14")
+        if has(tr, lambda t: t[0] == "list" and not t[2]):
+            regions.append("empty-list-element-type")
+        if has(tr, lambda t: t[0] == "list" and t[1] in ("FI64", "FBinary") and t[2]):
+            regions.append("list-i64-or-binary")
+        ctx.count("foreign_wide.region", "+".join(regions) or "none")
+        if r[0] != "ok":
+            ctx.correspondence("from_buffer(spec-encoded, whole IDL) ~ impl model c_from_buffer", case, "ok", list(r[:3]))
+            continue
+        y, pos, printed, b1 = r[1]
+        ctx.correspondence("from_buffer(spec-encoded, whole IDL) ~ impl model c_from_buffer", case, T.canon(m_r),
+                           ["ok", T.canon(T.pv(y)), len(b0) - pos])
+        if b1 != b0 or printed:
+            if regions:
+                comp = "write_list" if regions[0] == "empty-list-element-type" else "write_thrift"
+                ctx.fail({"component": comp, "kind": regions[0], "stream": "foreign-wide", "regions": regions}, case,
+                         "re-serialisation changes the bytes (%d -> %d)" % (len(b0), len(b1)))
+            else:
+                ctx.fail({"component": "reserialise", "kind": "bytes-differ", "stream": "foreign-wide", "root": tr[1]}, case,
+                         "to_bytes(from_buffer(b)) != b for spec-encoded b (%d vs %d bytes) %s" % (len(b1), len(b0), printed))
 
 
 # ---- stream 3: untyped objects (the model as a function, exceptions included) --------------------------
